@@ -8,11 +8,19 @@ package api
 
 import (
 	"bytes"
+	"encoding/base64"
 	"errors"
 	"fmt"
+	"maps"
+	"math/bits"
 	"slices"
 	"sort"
+	"strconv"
 	"strings"
+	"sync"
+	"time"
+	"unicode"
+	"unicode/utf8"
 )
 
 func confItoa(n int) string {
@@ -579,6 +587,267 @@ func conf032() string {
 	return confJoin(confK1, confK2, confK4, big>>38, int(d/sec), int(d%7))
 }
 
+
+// ---- part 2 ----
+
+type confFn func() []byte
+
+func (f confFn) Get() []byte {
+	if f == nil {
+		return nil
+	}
+	return f()
+}
+
+type confNode struct {
+	val  int
+	next *confNode
+}
+
+func (n *confNode) Sum() int {
+	if n == nil {
+		return 0
+	}
+	return n.val + n.next.Sum()
+}
+
+func conf033() string { // function types with methods, nil receivers, recursion through pointers
+	var nf confFn
+	f := confFn(func() []byte { return []byte("xy") })
+	l := &confNode{1, &confNode{2, &confNode{3, nil}}}
+	var fib func(int) int
+	fib = func(n int) int {
+		if n < 2 {
+			return n
+		}
+		return fib(n-1) + fib(n-2)
+	}
+	return confJoin(len(nf.Get()), len(f.Get()), l.Sum(), fib(10))
+}
+
+func confArr(a [3]int) int { a[0] = 100; return a[0] }
+func confSl(s []int)        { s[0] = 100 }
+func confAppend(s []int) []int {
+	return append(s, 9)
+}
+
+func conf034() string { // arrays by value, slices by reference, append across calls
+	a := [3]int{1, 2, 3}
+	r := confArr(a)
+	s := []int{1, 2, 3}
+	confSl(s)
+	base := make([]int, 2, 4)
+	x := confAppend(base)
+	y := confAppend(base) // same backing array: overwrites x[2]
+	y[2] = 7
+	grid := [2][2]int{{1, 2}, {3, 4}}
+	g2 := grid
+	g2[1][1] = 9
+	ss := [][]int{{1}, {2, 3}}
+	ss[1] = append(ss[1], 4)
+	for _, v := range a { // ranging over an array copies it
+		a[2] = 50
+		_ = v
+	}
+	last := 0
+	for _, v := range a {
+		last = v
+	}
+	return confJoin(r, a[0], s[0], x[2], grid[1][1], g2[1][1], len(ss[1]), last)
+}
+
+func confArgsOrder(log *string, tag string, v int) int {
+	*log += tag
+	return v
+}
+
+func conf035() string { // evaluation order; defer evaluates its arguments at the defer statement
+	log := ""
+	sum := confArgsOrder(&log, "a", 1) + confArgsOrder(&log, "b", 2)*confArgsOrder(&log, "c", 3)
+	out := ""
+	func() {
+		x := 1
+		defer func(v int) { out += confItoa(v) }(x)
+		x = 2
+		defer func() { out += confItoa(x) }()
+		x = 3
+	}()
+	rec := func() (r any) {
+		defer func() { r = recover() }()
+		return 5
+	}()
+	nested := func() (s string) {
+		defer func() {
+			if e := recover(); e != nil {
+				s = "outer:" + e.(string)
+			}
+		}()
+		func() {
+			defer func() {
+				if e := recover(); e != nil {
+					panic("re-" + e.(string))
+				}
+			}()
+			panic("p")
+		}()
+		return "no"
+	}()
+	return log + "," + confItoa(sum) + "," + out + "," + confItoa(confB(rec == nil)) + "," + nested
+}
+
+type confKey struct {
+	a string
+	b int
+}
+
+func conf036() string { // composite map keys, map of maps, sorted keys the way the repository gets them
+	m := map[confKey]int{{"x", 1}: 10, {"x", 2}: 20}
+	m[confKey{"x", 1}]++
+	ak := map[[2]int]string{{1, 2}: "p"}
+	mm := map[string]map[string]int{}
+	if mm["a"] == nil {
+		mm["a"] = map[string]int{}
+	}
+	mm["a"]["b"] = 3
+	keys := slices.Sorted(maps.Keys(map[string]int{"b": 1, "c": 2, "a": 3}))
+	infos := []*confS{{3, 0}, {1, 0}, {2, 0}}
+	slices.SortFunc(infos, func(p, q *confS) int { return p.x - q.x })
+	names := []string{"b", "a"}
+	slices.SortFunc(names, func(p, q string) int { return strings.Compare(p, q) })
+	return confJoin(m[confKey{"x", 1}], len(m), len(ak[[2]int{1, 2}]), mm["a"]["b"], len(mm["zz"]), infos[0].x, infos[2].x) + "," + keys[0] + keys[1] + keys[2] + names[0]
+}
+
+func conf037() string { // strconv, base64, utf8, unicode
+	n, err := strconv.Atoi("-42")
+	_, err2 := strconv.Atoi("4x")
+	u, _ := strconv.ParseUint("4294967295", 10, 32)
+	_, err3 := strconv.ParseUint("4294967296", 10, 32)
+	e := base64.StdEncoding.EncodeToString([]byte("hi!"))
+	d, _ := base64.StdEncoding.DecodeString("aGkh")
+	_, err4 := base64.StdEncoding.DecodeString("a$")
+	return confJoin(n, confB(err == nil), confB(err2 != nil), int(u>>16), confB(err3 != nil), confB(err4 != nil),
+		confB(utf8.Valid([]byte("h\xc3\xa9"))), confB(utf8.Valid([]byte{0xff})), utf8.RuneCountInString("héllo"), confB(unicode.IsSpace('\u00a0')), confB(unicode.IsSpace('x'))) +
+		"," + strconv.Itoa(1234) + strconv.FormatUint(7, 2) + e + string(d) + string(bytes.TrimSpace([]byte(" \t a b \n")))
+}
+
+func conf038() string { // durations and instants with concrete values
+	d := 90 * time.Second
+	t0 := time.Unix(1000, 0)
+	t1 := time.Unix(1090, 0)
+	tenth := time.Duration(1000) / 10
+	return confJoin(int(d/time.Minute), int(d%time.Minute/time.Second), int(t1.Sub(t0)/time.Second), confB(t1.After(t0)), confB(t0.Before(t1)), int(t1.Unix()), int(tenth), int(time.Duration(3)*time.Millisecond/time.Microsecond))
+}
+
+func conf039() string { // sync primitives used sequentially
+	var mu sync.Mutex
+	var once sync.Once
+	n := 0
+	for i := 0; i < 3; i++ {
+		mu.Lock()
+		once.Do(func() { n += 10 })
+		n++
+		mu.Unlock()
+	}
+	var rw sync.RWMutex
+	rw.RLock()
+	rw.RUnlock()
+	rw.Lock()
+	rw.Unlock()
+	return confItoa(n)
+}
+
+type confIsErr struct{ kind string }
+
+func (e confIsErr) Error() string        { return "kind " + e.kind }
+func (e confIsErr) Is(target error) bool { t, ok := target.(confIsErr); return ok && t.kind == e.kind }
+
+func conf040() string { // custom Is, several %w, switch on errors
+	a, b := errors.New("a"), errors.New("b")
+	both := fmt.Errorf("x: %w, y: %w", a, b)
+	w := fmt.Errorf("wrap: %w", confIsErr{"k"})
+	sw := func(err error) int {
+		switch {
+		case err == nil:
+			return 0
+		case errors.Is(err, a):
+			return 1
+		case errors.Is(err, confIsErr{"k"}):
+			return 2
+		}
+		return 3
+	}
+	return confJoin(confB(errors.Is(both, a)), confB(errors.Is(both, b)), sw(nil), sw(both), sw(w), sw(b), confB(errors.Is(w, confIsErr{"other"}))) + "," + both.Error()
+}
+
+func conf041() string { // type switches with several types per case, init statements, shadowing
+	classify := func(v any) string {
+		switch x := v.(type) {
+		case int, int64:
+			_ = x
+			return "int"
+		case string:
+			if n := len(x); n > 2 {
+				return "long"
+			} else if n > 0 {
+				return "short"
+			}
+			return "empty"
+		case []byte, nil:
+			return "bytes-or-nil"
+		case fmt.Stringer:
+			return "stringer"
+		}
+		return "other"
+	}
+	x := 1
+	if x := 2; x > 1 {
+		x++
+		_ = x
+	}
+	return classify(1) + classify(int64(2)) + classify("abc") + classify("a") + classify("") + classify(nil) + classify([]byte{1}) + classify(time.Second) + classify(1.5) + confItoa(x)
+}
+
+func conf042() string { // bytes.Buffer and strings.Builder on concrete data
+	var b bytes.Buffer
+	b.WriteString("ab")
+	b.WriteByte('c')
+	b.Write([]byte("de"))
+	alias := b.Bytes()
+	n := b.Len()
+	b.Reset()
+	b.WriteString("XY")
+	sb := "" // strings.Builder's copy check goes through unsafe.Pointer; the repository does not use it
+	for i := 0; i < 3; i++ {
+		sb += confItoa(i)
+	}
+	return confJoin(n, b.Len()) + "," + string(alias[:2]) + b.String() + sb + "zz"
+}
+
+func conf043() string { // unsigned arithmetic at the edges, mixed widths
+	var a uint64 = 1 << 63
+	b := a * 2
+	var c uint32 = 0xFFFFFFFF
+	d := uint64(c) + 1
+	var e int64 = -1
+	f := uint32(e)
+	var g uint8 = 200
+	h := g + 100
+	i := int(g) + 100
+	var m1 int8 = -1
+	return confJoin(confB(b == 0), int(d>>32), int(f>>31), int(h), i, int(int8(g)), int(uint16(m1)>>8))
+}
+
+func conf044() string { // unsigned negation, wrapping multiplication, table lookups as math/bits does them
+	var x uint = 2
+	var y uint64 = 40
+	neg := x & -x
+	const deBruijn64 = 0x03f79d71b4ca8b09
+	idx := (y & -y) * deBruijn64 >> (64 - 6)
+	var z uint32 = 12
+	idx32 := (z & -z) * 0x077CB531 >> (32 - 5)
+	return confJoin(int(neg), int(idx), int(idx32), bits.TrailingZeros(2), bits.TrailingZeros64(40), bits.Len(255), bits.OnesCount8(0xF0), bits.LeadingZeros32(1)) + "," + strconv.FormatUint(7, 2) + strconv.FormatInt(-255, 16)
+}
+
 type confCase struct {
 	name string
 	f    func() string
@@ -618,6 +887,18 @@ var confCases = []confCase{
 	{"030-pointers", conf030, "3,4,1,0,0,1"},
 	{"031-escape", conf031, "3,1"},
 	{"032-consts", conf032, "10,20,40,4,3,4"},
+	{"033-fn-types-recursion", conf033, "0,2,6,55"},
+	{"034-arrays-slices-calls", conf034, "100,1,100,7,4,9,3,50"},
+	{"035-eval-order-defer", conf035, "abc,7,31,1,outer:re-p"},
+	{"036-map-keys-sorted", conf036, "11,2,1,3,0,1,3,abca"},
+	{"037-strconv-b64-utf8", conf037, "-42,1,1,65535,1,1,1,0,5,1,0,1234111aGkhhi!a b"},
+	{"038-time", conf038, "1,30,90,1,1,1090,100,3000"},
+	{"039-sync", conf039, "13"},
+	{"040-errors-is", conf040, "1,1,0,1,2,3,0,x: a, y: b"},
+	{"041-type-switch", conf041, "intintlongshortemptybytes-or-nilbytes-or-nilstringerother1"},
+	{"042-buffers", conf042, "5,2,XYXY012zz"},
+	{"043-unsigned", conf043, "1,1,1,44,300,-56,255"},
+	{"044-bits", conf044, "2,7,3,1,3,8,4,31,111-ff"},
 }
 
 // One harness per case group keeps a failure local; every case is fully concrete, so each is a single path.
@@ -640,3 +921,5 @@ func confReport(name, got, want string) {
 func verifHarnessConformanceA() { verifConfRun(0, 10) }
 func verifHarnessConformanceB() { verifConfRun(10, 20) }
 func verifHarnessConformanceC() { verifConfRun(20, 32) }
+func verifHarnessConformanceD() { verifConfRun(32, 38) }
+func verifHarnessConformanceE() { verifConfRun(38, 44) }
